@@ -1227,6 +1227,14 @@ func (x *Exec) checkCallsites(fr *Frame, st *State, call *ssa.Call) {
 		for n, v := range x.params {
 			env.vars[n] = v
 		}
+		// the actual arguments of this call: arg0, arg1, ... (and recv for a method called through an interface)
+		cc := call.Common()
+		for i, a := range cc.Args {
+			env.vars[fmt.Sprintf("arg%d", i)] = tv{x.val(fr, st, a), a.Type()}
+		}
+		if cc.IsInvoke() {
+			env.vars["recv"] = tv{x.val(fr, st, cc.Value), cc.Value.Type()}
+		}
 		g := x.evalClause(env, x.c, "callsite "+cs.Callee+" "+cs.Label, cs.Expr)
 		n0 := len(x.obls)
 		x.check(st, fmt.Sprintf("%scallsite.%s.%s@%d", fr.prefix, cs.Callee, cs.Label, x.ordinal(fr.fn, call, "call")), g, call.Pos())
